@@ -342,7 +342,14 @@ func (d *Decoder) parseResiduals(mbx, mby int) (skip bool) {
 
 // reconstructMacroblock applies the predictor functions and adds the inverse-
 // DCT transformed residuals to recover the YCbCr data.
+// DebugMB (added for /verif, nil by default) is shown every macroblock's coefficients before
+// reconstruction; used when analysing a disagreement between decoders.
+var DebugMB func(mbx, mby int, predY16 bool, coeff []int16, nzDCMask, nzACMask uint32)
+
 func (d *Decoder) reconstructMacroblock(mbx, mby int) {
+	if DebugMB != nil {
+		DebugMB(mbx, mby, d.usePredY16, d.coeff[:], d.nzDCMask, d.nzACMask)
+	}
 	if d.usePredY16 {
 		p := checkTopLeftPred(mbx, mby, d.predY16)
 		predFunc16[p](d, 1, 8)
